@@ -582,6 +582,10 @@ def corr_buildsystem(ctx, res):
         if errors > 0 and f["status"] != "failed":
             res.oracle_failures.append({"what": "the dependency file produced %d diagnostics but the command did not fail" % errors,
                                         "kind": "malformed-not-failed", "input": {"line": lines[i]}})
+        if style == "dependency-info" and not depinfo_wellformed(data) and f["status"] != "failed":
+            res.oracle_failures.append({"what": "a dependency-info file that violates the documented format (%d bytes: %s) did not fail the command" % (
+                                            len(data), data[:24].hex()),
+                                        "kind": "malformed-not-failed", "spec": "dependency-info", "input": {"line": lines[i]}})
         if errors == 0 and f["status"] != "ok":
             res.oracle_failures.append({"what": "the command failed although the dependency file produced no diagnostic: " + line[:200],
                                         "kind": "failed-without-diagnostic", "input": {"line": lines[i]}})
@@ -674,10 +678,34 @@ def e2e_file(rng, style, k, fi, absdir, force_abs):
     return mk_file(rules), listed
 
 
+def depinfo_wellformed(data):
+    """the documented shape of a dependency-info file (docs/buildsystem.rst, DependencyInfoParser.h), restated: a non-empty sequence
+    of records `opcode byte, non-empty operand, NUL`, the first (and only the first) a version record, opcodes 0x00 version,
+    0x10 input, 0x11 missing, 0x40 output"""
+    if not data or data[-1:] != b"\0" or data[0] != 0x00:
+        return False
+    pos, first = 0, True
+    while pos < len(data):
+        op = data[pos]
+        end = data.find(b"\0", pos + 1)
+        if end < 0 or end == pos + 1:
+            return False
+        if op == 0x00:
+            if not first:
+                return False
+        elif op not in (0x10, 0x11, 0x40):
+            return False
+        first = False
+        pos = end + 1
+    return True
+
+
 def e2e_malformed(rng, style, good, k):
     """a dependency file that is malformed BY CONSTRUCTION (documented shape violated), derived from the well-formed `good`"""
     if style == "dependency-info":
-        m = k % 4
+        m = k % 5
+        if m == 4:
+            return b"", "empty-file"
         if m == 0:
             return good[good.index(b"\0", 1) + 1:] or b"\x10a\0", "no-version-record"
         if m == 1:
